@@ -70,21 +70,21 @@ PROPS = {
     "C05": {
         "title": "mh_sha1/mh_sha256 equal the multi-hash definition for any update segmentation",
         "variant": "default",
-        "quick": {"cases": 400000},
-        "thorough": {"cases": 2000000, "opts": ["bigmax=4194304", "giant_ppm=24"]},
+        "quick": {"cases": 400000, "opts": ["giants=1"]},
+        "thorough": {"cases": 2000000, "opts": ["bigmax=4194304", "giants=3", "giant_ppm=8"]},
         "rule": "rapidcheck cases over {mh_sha1, mh_sha256} x {base, sse, avx, avx2, avx512, legacy, isal_}; stream from a seed; total length mixture (0, 1..70, "
                 "1015..1017, 1023..1025, k*1024+{0,+-1,+-8,+-9}, up to bigmax); partition into 1..9 update calls with cut points biased to 1024-byte boundaries "
                 "(zero-length updates included); every update buffer guard-page flush or shifted, read-only. Oracle: reference built from the definition "
                 "(SHA padding to 1024, word round-robin to 16 segments, SHA compress per segment, final SHA over the word-major digest matrix); all partitions "
                 "and families must agree with it. Non-trivial = >=2 updates and some update starts with a carried partial block and crosses a 1024 boundary.",
         "assumptions": COMMON_ASSUME + ["the multi-hash reference is validated only by agreement of all 7 independent entry families with it (no external oracle exists)",
-                                         "streams close to 2^32 bytes (periodic memfd buffer, single updates up to 2^32-1 bytes) are generated in the thorough tier only (~50 per run)"],
+                                         "giant streams come from a periodic memfd buffer (single updates up to 2^32-1 bytes): every worker starts with one stream just above 2^29 bytes (quick and thorough); streams just below 2^32 bytes are generated in the thorough tier only (~60 per run)"],
     },
     "C10": {
         "title": "mh_sha1_murmur3_x64_128 returns both digests as if computed separately",
         "variant": "default",
-        "quick": {"cases": 400000},
-        "thorough": {"cases": 2000000, "opts": ["bigmax=4194304", "giant_ppm=16"]},
+        "quick": {"cases": 400000, "opts": ["giants=1"]},
+        "thorough": {"cases": 2000000, "opts": ["bigmax=4194304", "giants=3", "giant_ppm=6"]},
         "rule": "as C05 for the stitched function x {base, sse, avx, avx2, avx512, legacy, isal_} with 64-bit seeds (0, 2^32+-1, 2^63, 2^64-1, random). Oracle: mh_sha1 part "
                 "= the multi-hash reference; murmur part = independent MurmurHash3_x64_128 with h1=h2=seed over the whole stream (reference checked against "
                 "published vectors). Non-trivial = total % 16 != 0 and >=1 update crossing a 1024 boundary.",
